@@ -20,7 +20,7 @@ REPO = os.environ.get("VERIF_REPO", "/repo")
 BUILD = os.environ.get("VERIF_BUILD", os.path.join(VERIF, "build"))
 SPEC = os.path.join(VERIF, "spec")
 HARNESS = os.path.join(VERIF, "harness")
-EVIDENCE = os.path.join(VERIF, "evidence")
+EVIDENCE = os.environ.get("VERIF_EVIDENCE", os.path.join(VERIF, "evidence"))
 FINDINGS_FILE = os.path.join(VERIF, "KNOWN_FINDINGS.jsonl")
 GUARD = "NSTD_VERIF"
 CXX = os.environ.get("VERIF_CXX", "g++")
@@ -249,91 +249,121 @@ def read_dot(path, want_state_text=False):
     return inits, edges, text
 
 
-def edge_cover_walks(inits, edges, max_len=60, skip_label=None, rng=None):
-    """Op sequences (lists of labels) that together traverse every edge of the graph.
-
-    Greedy: start at an initial state, follow untraversed edges while possible; when stuck, go by a
-    shortest path to the nearest state that still has an untraversed edge if that is short, else start a
-    new walk (reset) and take the BFS-tree path from the initial state.
-    """
+def edge_cover_walks(inits, edges, max_len=200, skip_label=None, rng=None, max_bfs=3000):
+    """Op sequences (lists of labels) that together traverse every edge of the graph reachable from the
+    initial state.  Greedy: follow an untraversed edge of the current state if there is one, otherwise go by a
+    shortest path (BFS over at most max_bfs states) to the nearest state that still has one; a walk ends when it
+    reaches max_len or nothing is in reach, and the next walk starts again from the initial state (= reset)."""
     from collections import deque
     init = inits[0]
-    # BFS tree from init
-    parent = {init: None}
+    todo = {}
+    total = 0
+    for u, es in edges.items():
+        lst = [e for e in es if not (skip_label and skip_label(e[0]))]
+        if lst:
+            if rng:
+                rng.shuffle(lst)
+            todo[u] = lst
+            total += len(lst)
+    # drop unreachable states
+    seen = {init}
     dq = deque([init])
     while dq:
         u = dq.popleft()
         for lab, v in edges.get(u, []):
-            if v not in parent:
-                parent[v] = (u, lab)
+            if v not in seen:
+                seen.add(v)
                 dq.append(v)
+    for u in list(todo):
+        if u not in seen:
+            total -= len(todo[u])
+            del todo[u]
 
-    def path_from_init(u):
-        p = []
-        while parent[u] is not None:
-            pu, lab = parent[u]
-            p.append(lab)
-            u = pu
-        p.reverse()
-        return p
+    def nearest(cur, limit):
+        if cur in todo:
+            return []
+        par = {cur: None}
+        dq = deque([cur])
+        while dq and len(par) < limit:
+            x = dq.popleft()
+            for lab, v in edges.get(x, []):
+                if v in par:
+                    continue
+                par[v] = (x, lab)
+                if v in todo:
+                    path = []
+                    while par[v] is not None:
+                        x2, l2 = par[v]
+                        path.append((l2, v))
+                        v = x2
+                    path.reverse()
+                    return path
+                dq.append(v)
+        return None
 
-    todo = {}
-    total = 0
-    for u, es in edges.items():
-        if u not in parent:
-            continue
-        lst = [e for e in es if not (skip_label and skip_label(e[0]))]
-        if lst:
-            todo[u] = list(lst)
-            if rng:
-                rng.shuffle(todo[u])
-            total += len(lst)
     walks = []
-    order = sorted(todo.keys(), key=lambda u: len(path_from_init(u)))
-    oi = 0
     while todo:
-        # pick next start: nearest-to-init state with work
-        while oi < len(order) and order[oi] not in todo:
-            oi += 1
-        if oi >= len(order):
-            break
-        u = order[oi]
-        walk = path_from_init(u)
-        cur = u
+        cur = init
+        walk = []
+        first = True
         while len(walk) < max_len:
-            if cur in todo:
-                lab, v = todo[cur].pop()
-                if not todo[cur]:
-                    del todo[cur]
+            path = nearest(cur, 10 ** 9 if first else max_bfs)
+            first = False
+            if path is None:
+                break
+            if path and len(walk) + len(path) >= max_len and walk:
+                break
+            for lab, v in path:
                 walk.append(lab)
                 cur = v
-                continue
-            # bounded BFS (depth 3) to a state with work
-            found = None
-            seen = {cur}
-            frontier = [(cur, [])]
-            for _ in range(3):
-                nf = []
-                for x, p in frontier:
-                    for lab, v in edges.get(x, []):
-                        if v in seen:
-                            continue
-                        seen.add(v)
-                        if v in todo:
-                            found = (v, p + [lab])
-                            break
-                        nf.append((v, p + [lab]))
-                    if found:
-                        break
-                if found or len(seen) > 400:
-                    break
-                frontier = nf
-            if not found or len(walk) + len(found[1]) >= max_len:
-                break
-            walk += found[1]
-            cur = found[0]
+            lst = todo[cur]
+            lab, v = lst.pop()
+            if not lst:
+                del todo[cur]
+            walk.append(lab)
+            cur = v
+        if not walk:
+            break
         walks.append(walk)
     return walks, total
+
+
+def graphwalk_bin():
+    b = os.path.join(BUILD, "bin", "graphwalk")
+    src = os.path.join(VERIF, "tools", "native", "graphwalk.cpp")
+    os.makedirs(os.path.dirname(b), exist_ok=True)
+    if not os.path.exists(b) or os.path.getmtime(b) < os.path.getmtime(src):
+        tmp = b + ".tmp%d" % os.getpid()
+        rc, out = sh(["g++", "-O2", "-std=c++11", "-o", tmp, src], timeout=300)
+        if rc != 0:
+            raise BuildError("graphwalk: " + out)
+        os.replace(tmp, b)
+    return b
+
+
+def graph_walks(dot_path, max_len=200, seed=1):
+    """Edge-covering walks of a TLC dot dump as lists of (action name, [args]).  Returns (walks, n_edges)."""
+    out = dot_path + ".walks"
+    rc, txt = sh([graphwalk_bin(), dot_path, out, str(max_len), str(seed)], timeout=1200)
+    if rc not in (0, 1):
+        raise RuntimeError("graphwalk failed: " + txt)
+    memo = {}
+    walks = []
+    nedges = 0
+    with open(out) as f:
+        for line in f:
+            line = line.rstrip("\n")
+            if line == "reset":
+                walks.append([])
+            elif line.startswith("#edges"):
+                nedges = int(line.split()[1])
+            elif line:
+                v = memo.get(line)
+                if v is None:
+                    v = memo[line] = parse_action_label(line)
+                walks[-1].append(v)
+    os.remove(out)
+    return walks, nedges
 
 
 # ---------------------------------------------------------------------------------------------
@@ -546,10 +576,7 @@ def index_trace(trace_path):
     return idx
 
 
-def validate_trace(spec_dir, module, cfg, trace_path, timeout=900, xmx="4g", env=None):
-    """Run the trace specification over trace_path.  The trace spec prints <<"MISMATCH", line, why>> for every
-    event the property-level spec does not allow and resynchronises, and <<"TRACE-DONE", n>> at the end.
-    Returns (TlcResult, [ (line(1-based), why) ], complete?)"""
+def _validate_one(spec_dir, module, cfg, trace_path, timeout, xmx, env):
     e = {"TRACE": trace_path}
     if env:
         e.update(env)
@@ -563,6 +590,51 @@ def validate_trace(spec_dir, module, cfg, trace_path, timeout=900, xmx="4g", env
         elif p.startswith('"TRACE-DONE"'):
             done = True
     return r, mism, done
+
+
+def validate_trace(spec_dir, module, cfg, trace_path, timeout=900, xmx="4g", env=None, chunk_lines=150000, parallel=6):
+    """Run the trace specification over trace_path.  The trace spec prints <<"MISMATCH", line, why>> for every
+    event the property-level spec does not allow and resynchronises, and <<"TRACE-DONE", n>> at the end.
+    Long traces are cut at execution boundaries ("reset" events) into chunks validated by parallel TLC runs.
+    Returns (TlcResult (summed), [ (line(1-based), why) ], complete?)"""
+    with open(trace_path) as f:
+        lines = f.readlines()
+    if len(lines) <= chunk_lines:
+        return _validate_one(spec_dir, module, cfg, trace_path, timeout, xmx, env)
+    chunks = []          # (first line index (0-based), path)
+    start = 0
+    i = 0
+    n = len(lines)
+    while start < n:
+        end = min(n, start + chunk_lines)
+        while end < n and '"op":"reset"' not in lines[end]:
+            end += 1
+        p = "%s.chunk%d" % (trace_path, len(chunks))
+        with open(p, "w") as f:
+            f.writelines(lines[start:end])
+        chunks.append((start, p))
+        start = end
+    del lines
+
+    def one(c):
+        return c[0], _validate_one(spec_dir, module, cfg, c[1], timeout, xmx, env)
+    total = TlcResult()
+    total.ok = True
+    allm = []
+    alldone = True
+    with ThreadPoolExecutor(max_workers=parallel) as ex:
+        for off, (r, mism, done) in ex.map(one, chunks):
+            total.generated += r.generated
+            total.distinct += r.distinct
+            total.wall += r.wall
+            total.ok = total.ok and r.ok
+            total.broken = total.broken or r.broken
+            total.violation = total.violation or r.violation
+            allm += [(ln + off, why) for ln, why in mism]
+            alldone = alldone and done
+    for _, p in chunks:
+        os.remove(p)
+    return total, sorted(allm), alldone
 
 
 # ---------------------------------------------------------------------------------------------
